@@ -42,6 +42,9 @@ structure FieldMeta where
   header : B
   cookie : B
   dflt : B := []      -- Tag.Get("default")
+  style : B := []     -- Tag.Get("style")
+  explode : B := []   -- Tag.Get("explode")
+  typeIs : B := []    -- type identity after one pointer level: "ip" (net.IP), "url" (url.URL) or ""
   deriving DecidableEq, Repr, Inhabited
 
 inductive Ty
